@@ -47,8 +47,8 @@ def strip_comment_lines(data: bytes) -> bytes:
 
 
 def oracle_table(data: Optional[bytes]) -> List[Any]:
-    """zlib / utf-8 answers for every suffix of `data` that starts after a newline (and data itself),
-    keyed by the suffix length; computed with CPython's zlib and codec, not with pydoctor."""
+    """zlib / utf-8 answers for every suffix of `data` that starts after a newline (and data itself), keyed by the
+    suffix; computed with CPython's zlib and codec, not with pydoctor. Suffixes zlib rejects are left out."""
     if not data:
         return []
     out = []
@@ -62,9 +62,9 @@ def oracle_table(data: Optional[bytes]) -> List[Any]:
         try:
             t = raw.decode('utf-8')
         except UnicodeError:
-            out.append([len(suf), 1, ''])
+            out.append([suf, 1, ''])
             continue
-        out.append([len(suf), 2, t])
+        out.append([suf, 2, t])
     return out
 
 
@@ -79,10 +79,14 @@ def inv_bytes(lines: List[str], header: bytes = FULL_HEADER, nl: str = '\n') -> 
 
 def fetch_to_wire(case: Dict[str, Any], which: int = 0) -> str:
     fs = []
+    table: List[Any] = []
     for u, d in case['fetches']:
         data = None if d is None else bytes.fromhex(d)
-        fs.append([u, data is not None, data or b'', oracle_table(data)])
-    return enc([1, which, fs, case.get('queries', [])])
+        fs.append([u, data is not None, data or b''])
+        for e in oracle_table(data):
+            if e not in table:
+                table.append(e)
+    return enc([1, which, fs, case.get('queries', []), table])
 
 
 REPORT_FMT = {
@@ -309,7 +313,8 @@ class Check(PropertyCheck):
             'length <= 2 as decompressed payload and (after "#\\n") as raw data (thorough: length <= 3 raw, summarised), every '
             'prefix and every single-byte corruption of a valid zlib stream, wrong compressions, non-UTF-8, URL and header '
             'variants; projects: generated Systems (nested classes, duplicates, hidden/private, packages, names with spaces) '
-            'written by driver.make and read back by pydoctor and Sphinx. non-trivial = a line that reaches the column '
+            'and real packages (pydoctor/test/testpackages; thorough: pydoctor itself) written by driver.make and read back by '
+            'pydoctor and Sphinx. non-trivial = a line that reaches the column '
             'arithmetic (>= 3 pieces) / a fetch that reaches _parseInventory with >= 1 line / a project with >= 1 hidden object '
             'or a name with a space; counted over distinct cases')
     trusted_base = [
@@ -335,9 +340,11 @@ class Check(PropertyCheck):
                  'lines parse back to their columns unless the name has a space separated piece from index 2 on that int() '
                  'accepts (C17_line_roundtrip, refuted for "a 1 2"); update() returns for every byte string and every '
                  'zlib/utf-8 behaviour, each bad line gives exactly one report and good lines around it are all present '
-                 '(C17_update_total, C17_bad_parts_skipped); stage failures give one report and no links '
+                 '(C17_update_total, C17_fetch_all_total, C17_bad_parts_skipped); stage failures give one report and no links '
                  '(C17_payload_stages); $ expansion (C17_getlink_dollar); whole-inventory round trip: one entry per visible '
-                 'object reachable through contents, mapped to its url (C17_inventory_roundtrip). The model is tied to '
+                 'object reachable through contents, mapped to its url (C17_inventory_roundtrip, '
+                 'C17_entries_are_the_visible_objects, C17_roundtrip_getlink; guards: no int()-like piece from index 2 on, no '
+                 'line boundary character in a qualified name, distinct qualified names). The model is tied to '
                  'pydoctor/sphinx.py by an exhaustive + generated correspondence check and the round trip is observed on '
                  'generated projects through pydoctor\'s reader and Sphinx\'s.'),
         'note': ('Trusted: Coq kernel, extraction + OCaml driver, Python harness. Oracles (zlib, utf-8 codec) are quantified '
@@ -481,8 +488,7 @@ class Check(PropertyCheck):
         small = zlib.compress(b'a py:class 1 x -\nb py:function 1 y$ -\n')
         for i in range(len(small)):
             add(fetch_case([(URL, b'#\n' + small[:i])], ['a', 'b']), 'truncated')
-        step = 1 if self.tier != 'quick' else 1
-        for i in range(0, len(small), step):
+        for i in range(len(small)):
             for x in ((0x01, 0x80, 0xff) if self.tier == 'quick' else (0x01, 0x02, 0x04, 0x08, 0x10, 0x20, 0x40, 0x80, 0xff)):
                 b = bytearray(small)
                 b[i] ^= x
@@ -505,8 +511,7 @@ class Check(PropertyCheck):
             for t in itertools.product(range(256), repeat=n):
                 bs = bytes(t)
                 add(fetch_case([(URL, b'#\n' + zlib.compress(bs))], ['a']), 'payload_bytes_le2')
-                if True:
-                    add(fetch_case([(URL, b'#\n' + bs)], []), 'raw_bytes_le2')
+                add(fetch_case([(URL, b'#\n' + bs)], []), 'raw_bytes_le2')
                 if n < 2:
                     add(fetch_case([(URL, bs)], []), 'raw_bytes_nohdr_le1')
                     add(fetch_case([(URL, FULL_HEADER + bs)], []), 'raw_bytes_fullhdr_le1')
@@ -588,6 +593,19 @@ class Check(PropertyCheck):
         # the known class (DESIGN 7.3): a file name with spaces and integer-looking pieces
         add({'files': {'a 1 2.py': 'def f(): pass\nclass C:\n  def m(self): pass\n  x = 1\n'}, 'privacy': []}, 'corpus_space_int')
         add({'mods': [['a b +3', 'def f(): pass\n', None, False], ['q', 'v = 1\n', None, False]], 'privacy': []}, 'corpus_space_int')
+        # real packages: pydoctor's own test packages (quick: four of them), and pydoctor itself (thorough)
+        real = ['basic', 'allgames', 'nestedconfusion', 'reparented_module']
+        if self.tier != 'quick':
+            real += ['codeininit', 'cyclic_imports', 'cyclic_imports_base_classes', 'importingfrompackage', 'interfaceallgames',
+                     'interfaceclass', 'liveobject', 'modnamedafterbuiltin', 'multipleinheritance', 'package_module_name_clash',
+                     'relativeimporttest', 'reparenting_crash', 'reparenting_crash_alt', 'reparenting_follows_aliases',
+                     'report_trigger', 'syntax_error']
+        for pk in real:
+            add({'paths': ['pydoctor/test/testpackages/' + pk], 'privacy': []}, 'real_testpackage')
+        add({'paths': ['pydoctor/test/testpackages/allgames', 'pydoctor/test/testpackages/basic'],
+             'privacy': [['HIDDEN', 'allgames.mod1'], ['PRIVATE', 'basic.mod.C']]}, 'real_testpackage')
+        if self.tier != 'quick':
+            add({'paths': ['pydoctor'], 'privacy': [['HIDDEN', 'pydoctor.test'], ['PUBLIC', 'pydoctor.test.epydoc']]}, 'real_pydoctor')
         n = 26 if self.tier == 'quick' else 1000
         for i in range(n):
             mods: List[List[Any]] = []
@@ -686,7 +704,7 @@ class Check(PropertyCheck):
         for c, r in zip(cases, impl):
             if r.get('build_exc'):
                 wire2.append(enc([2, [], [], '', '']))
-                wire1.append(enc([1, 0, [], []]))
+                wire1.append(enc([1, 0, [], [], []]))
                 continue
             wire2.append(enc([2, r['root_names'], r['dump'], r['project'], r['version']]))
             wire1.append(fetch_to_wire(fetch_case([(URL, bytes.fromhex(r['data']))], [])))
@@ -893,7 +911,7 @@ class Check(PropertyCheck):
             print('property :', msg or 'holds on this input')
             rc = 1 if msg else 0
         elif case['k'] == 'project':
-            print('project  :', json.dumps({k: v for k, v in case.items() if k in ('mods', 'files', 'privacy')})[:1500])
+            print('project  :', json.dumps({k: v for k, v in case.items() if k in ('mods', 'files', 'paths', 'privacy')})[:1500])
             if not r.get('build_exc'):
                 print('visible  :', r['visible'][:40])
                 print('pydoctor :', r['pyd']['links'][:40], r['pyd']['reports'][:5], r['pyd']['exc'])
